@@ -586,6 +586,21 @@ theorem subContentStep_no_equiv (attrs : List (PStr × AttrVal)) (h : lookupAttr
   | none => rfl
   | some ct => cases ct <;> rfl
 
+theorem lookup_mergeAttrs_last (k : PStr) (v : AttrVal) (kw attrs : List (PStr × AttrVal)) :
+    lookupAttr k (mergeAttrs kw (attrs ++ [(k, v)])) = some v := by
+  simp [mergeAttrs, List.foldl_append, lookup_setAttr]
+
+theorem lookup_mergeAttrs_absent (k : PStr) : ∀ (attrs kw : List (PStr × AttrVal)), (∀ a ∈ attrs, a.1 ≠ k) →
+    lookupAttr k (mergeAttrs kw attrs) = lookupAttr k kw := by
+  intro attrs
+  induction attrs with
+  | nil => intro kw _; rfl
+  | cons a rest ih =>
+    intro kw h
+    have ha : k ≠ a.1 := fun e => h a (by simp) e.symm
+    simp only [mergeAttrs, List.foldl_cons] at ih ⊢
+    rw [ih _ (fun b hb => h b (by simp [hb])), lookup_setAttr_ne k a.1 a.2 ha]
+
 theorem subGo_drop (repl : PStr → PStr) : ∀ (l : PStr) (b : Bool), subGo repl l.length b l = [] := by
   intro l
   induction l with
